@@ -1216,11 +1216,6 @@ func (c *control) dirR(colon, at bool, params []any) {
 		}
 		one := cardinalOne
 		teen := cardinalTeen
-		if colon {
-			// prints arg as an ordinal English number: fourth.
-			one = ordinalOne
-			teen = ordinalTeen
-		}
 		i := len(digits) - 1
 		for _, trip := range cardinalTriples {
 			if 0 < len(trip) {
@@ -1251,8 +1246,6 @@ func (c *control) dirR(colon, at bool, params []any) {
 				}
 				words = append(words, cardinalTen[d10-'0'-2])
 			}
-			one = cardinalOne
-			teen = cardinalTeen
 			if 0 <= i {
 				d := digits[i]
 				i--
@@ -1269,6 +1262,11 @@ func (c *control) dirR(colon, at bool, params []any) {
 				break
 			}
 		}
+		if colon {
+			// prints arg as an ordinal English number: fourth. The words
+			// are in reverse order so the last word spoken is words[0].
+			words[0] = ordinalWord(words[0])
+		}
 		if neg {
 			words = append(words, "negative")
 		}
@@ -1280,6 +1278,24 @@ func (c *control) dirR(colon, at bool, params []any) {
 			c.out = append(c.out, sep...)
 		}
 	}
+}
+
+// ordinalWord returns the ordinal form of a cardinal number word.
+func ordinalWord(word string) string {
+	for i, w := range cardinalOne {
+		if w == word && 0 < i {
+			return ordinalOne[i]
+		}
+	}
+	for i, w := range cardinalTeen {
+		if w == word {
+			return ordinalTeen[i]
+		}
+	}
+	if word[len(word)-1] == 'y' { // twenty -> twentieth
+		return word[:len(word)-1] + "ieth"
+	}
+	return word + "th" // hundred, thousand, million, ...
 }
 
 func (c *control) dirS(colon, at bool, params []any) {
